@@ -404,8 +404,10 @@ type simConn struct {
 	writes   [][]byte
 	closed   bool
 	closeCh  chan struct{}
-	onWrite  func([]byte) error // fault injection: non-nil error fails the write
-	failRead error
+	onWrite   func([]byte) error // sees every Write call; a non-nil error fails the write
+	onWritten func(n, total int) // how many bytes of a Write the wire accepted
+	wdeadline time.Time
+	failRead  error
 }
 
 func newSimPair(capacity int) (*simConn, *simConn) {
@@ -442,6 +444,12 @@ func (c *simConn) Read(p []byte) (int, error) {
 	}
 }
 
+type simTimeout struct{}
+
+func (simTimeout) Error() string   { return "sim: i/o timeout" }
+func (simTimeout) Timeout() bool   { return true }
+func (simTimeout) Temporary() bool { return true }
+
 func (c *simConn) Write(p []byte) (int, error) {
 	// the hook sees every Write call ("handed to the connection"), also one that then fails
 	if c.onWrite != nil {
@@ -457,16 +465,55 @@ func (c *simConn) Write(p []byte) (int, error) {
 	cp := append([]byte(nil), p...)
 	c.mu.Lock()
 	c.writes = append(c.writes, cp)
+	deadline := c.wdeadline
 	c.mu.Unlock()
-	c.wr.mu.Lock()
-	if c.wr.closed {
-		c.wr.mu.Unlock()
-		return 0, io.ErrClosedPipe
+	written := 0
+	finish := func(n int, err error) (int, error) {
+		if c.onWritten != nil {
+			c.onWritten(n, len(p))
+		}
+		return n, err
 	}
-	c.wr.buf = append(c.wr.buf, p...)
-	c.wr.mu.Unlock()
-	c.wr.signal(c.wr.wake)
-	return len(p), nil
+	for {
+		c.wr.mu.Lock()
+		if c.wr.closed {
+			c.wr.mu.Unlock()
+			return finish(written, io.ErrClosedPipe)
+		}
+		room := len(p) - written
+		if c.wr.cap > 0 {
+			if free := c.wr.cap - len(c.wr.buf); free < room {
+				room = free
+			}
+		}
+		if room > 0 {
+			c.wr.buf = append(c.wr.buf, p[written:written+room]...)
+			written += room
+		}
+		c.wr.mu.Unlock()
+		if room > 0 {
+			c.wr.signal(c.wr.wake)
+		}
+		if written == len(p) {
+			return finish(written, nil)
+		}
+		// the wire is full: wait for the peer to read, the deadline, or the close
+		var timer <-chan time.Time
+		if !deadline.IsZero() {
+			d := time.Until(deadline)
+			if d <= 0 {
+				return finish(written, &net.OpError{Op: "write", Net: "sim", Err: simTimeout{}})
+			}
+			timer = time.After(d)
+		}
+		select {
+		case <-c.wr.space:
+		case <-timer:
+			return finish(written, &net.OpError{Op: "write", Net: "sim", Err: simTimeout{}})
+		case <-c.closeCh:
+			return finish(written, &net.OpError{Op: "write", Net: "sim", Err: net.ErrClosed})
+		}
+	}
 }
 
 func (c *simConn) Close() error {
@@ -494,9 +541,14 @@ func (c *simConn) Writes() [][]byte {
 
 func (c *simConn) LocalAddr() net.Addr                { return simAddr{} }
 func (c *simConn) RemoteAddr() net.Addr               { return simAddr{} }
-func (c *simConn) SetDeadline(time.Time) error      { return nil }
+func (c *simConn) SetDeadline(t time.Time) error      { return c.SetWriteDeadline(t) }
 func (c *simConn) SetReadDeadline(time.Time) error  { return nil }
-func (c *simConn) SetWriteDeadline(time.Time) error { return nil }
+func (c *simConn) SetWriteDeadline(t time.Time) error {
+	c.mu.Lock()
+	c.wdeadline = t
+	c.mu.Unlock()
+	return nil
+}
 
 // inject appends raw bytes to what this end will read (a scripted peer).
 func (c *simConn) inject(p []byte) {
